@@ -15,7 +15,7 @@ import (
 
 // C09 — string functions compute the XPath 1.0 result on their arguments.
 
-const ruleC09 = "rapid: document with ASCII text values x context x tree of depth <= 4 over concat (2-4 args), contains, starts-with, ends-with, substring-before/after, substring (2 and 3 args; start/length -3..9 in steps of 0.5), string-length, normalize-space (0/1 arg), translate, lower-case, string-join(flat, sep), string; string arguments from an ASCII pool incl. '', runs of blanks/tab/newline, repeated letters, digits, '-'; node-set arguments are flat paths (empty, one, many nodes) taken as the string-value of their first node. enum: contains/starts-with/ends-with/substring-before/substring-after/concat over all pairs of strings over {a,b} up to length 3, translate over all (s, from) of that kind x all 'to' over {x,y} up to length 2, normalize-space and string-length over all strings over {a, blank, tab} up to length 5, lower-case over {a,B,1} up to length 3 (all exhaustive); substring(s, start[, length]) for every s of length 0..6 and every start, length in -3..9 step 0.5 (exhaustive). Oracle: Evaluate = reference evaluator where substring is literally 'positions p with round(start) <= p < round(start)+round(length)', round = floor(x+0.5); no panic. Non-trivial: the result differs from every literal argument, or an argument is an empty node-set or the empty string; distinct by (document, context, expression)."
+const ruleC09 = "rapid: document with ASCII text values x context x tree of depth <= 4 over concat (2-4 args), contains, starts-with, ends-with, substring-before/after, substring (2 and 3 args; start/length -3..9 in steps of 0.5), string-length, normalize-space (0/1 arg), translate, lower-case, string-join(flat, sep), string; string arguments from an ASCII pool incl. '', runs of blanks/tab/newline, repeated letters, digits, '-'; node-set arguments are flat paths (empty, one, many nodes) taken as the string-value of their first node. enum: contains/starts-with/ends-with/substring-before/substring-after/concat over all pairs of strings over {a,b} up to length 3, translate over all (s, from) of that kind x all 'to' over {x,y} up to length 2, normalize-space and string-length over all strings over {a, blank, tab} up to length 5, lower-case over {a,B,1} up to length 3 and over every printable ASCII character alone, doubled and between two letters (all exhaustive); substring(s, start[, length]) for every s of length 0..6 and every start, length in -3..9 step 0.5 (exhaustive). Oracle: Evaluate = reference evaluator where substring is literally 'positions p with round(start) <= p < round(start)+round(length)', round = floor(x+0.5); no panic. Non-trivial: the result differs from every literal argument, or an argument is an empty node-set or the empty string; distinct by (document, context, expression)."
 
 var (
 	uC09      = harness.NewUnit("C09", "rapid-string-functions", ruleC09)
@@ -206,6 +206,19 @@ func TestC09SmallDomains(t *testing.T) {
 		run(&xast.Call{Name: "string-length", Args: []xast.Expr{&xast.Str{S: s}}}, "fn:string-length")
 	}
 	for _, s := range words("aB1", 3) {
+		run(&xast.Call{Name: "lower-case", Args: []xast.Expr{&xast.Str{S: s}}}, "fn:lower-case")
+	}
+	// every printable ASCII character (and a few beyond) alone, doubled, and between two
+	// lower-case letters: a mapping done by hand gets the ends of a range wrong, not its middle
+	for c := rune(0x20); c <= 0x7e; c++ {
+		if c == '\'' || c == '"' {
+			continue
+		}
+		for _, s := range []string{string(c), string(c) + string(c), "a" + string(c) + "z"} {
+			run(&xast.Call{Name: "lower-case", Args: []xast.Expr{&xast.Str{S: s}}}, "fn:lower-case")
+		}
+	}
+	for _, s := range []string{"À", "É", "Þ", "ß", "İ", "Σ", "Я", "Ａ", "aÀz"} {
 		run(&xast.Call{Name: "lower-case", Args: []xast.Expr{&xast.Str{S: s}}}, "fn:lower-case")
 	}
 	uC09Small.SetExhaustive(total)
